@@ -548,3 +548,7 @@ Theorem C07_scan_bitmap_protocol : forall fuel s bs, PInv s -> (length (buf s) -
   good (fun rs => PInv (snd rs)) (scan_bitmap fuel s bs).
 Proof. exact scan_bitmap_good. Qed.
 Print Assumptions C07_scan_bitmap_protocol.
+
+Theorem C07_load_copies_octets : load_copies_octets = true.
+Proof. exact load_copies. Qed.
+Print Assumptions C07_load_copies_octets.
